@@ -59,7 +59,7 @@ class C17(Check):
     ASSUMPTIONS = ['lone surrogates are not text and are not generated',
                    'stdlib one-shot codecs are the reference for the meaning of the bytes']
     ANCHORS = ['rxsci/data/codec.py']
-    REQUIRED_TAGS = ENCODINGS + ['cut-in-char', 'empties', 'empty-string', 'astral', 'empty-list', 'string>64Ki', 'alias-spelling']
+    REQUIRED_TAGS = ENCODINGS + ['cut-in-char', 'empties', 'empty-string', 'astral', 'empty-list', 'string>64Ki', 'alias-spelling', 'chunk-decoding-to-exactly-2**k-characters']
     REQUIRED_OBSERVED = ['pairs_of_concurrently_alive_subscriptions', 'second_subscriptions_of_one_observable']
 
     _ops = {}
@@ -127,6 +127,20 @@ class C17(Check):
         nrand = 2000 if tier == 'quick' else 10 ** 7
         for k in range(nrand):
             enc = rng.choice(ENCODINGS)
+            if k % 250 == 60:
+                # a chunk that decodes to EXACTLY 2**j characters (a file read in 1 / 4 / 8 / 16 MiB blocks): text splitters with a
+                # maximum item size see a remainder of zero
+                j = [20, 22, 23, 24, 21][(k // 250) % 5]
+                enc = ['latin-1', 'utf-8', 'utf-16', 'latin-1', 'utf-32'][(k // 250) % 5]
+                unit = 'abcdefgh' if enc != 'latin-1' else 'abcd\xe9fgh'
+                block = unit * ((1 << j) // 8)
+                strs = ['head', block, block[:1 << 18], 'tail']
+                blob = ''.join(strs).encode(enc)
+                # cuts on the byte offsets where the 2**j-character block starts and ends
+                a = len(('head').encode(enc))
+                b = len(('head' + block).encode(enc))
+                yield dict(self._mk(enc, strs, (a, b), empties=False), exact_block=j)
+                continue
             if k % 250 == 125:
                 # scale: single strings beyond 65536 characters (block-wise encoders), not first and first in the stream
                 enc = ENCODINGS[(k // 250) % 4]
@@ -161,6 +175,8 @@ class C17(Check):
         name = case.get('spelling', enc)        # the name handed to rxsci; `enc` (canonical) is what the oracles use
         if name != enc:
             out.tags.append('alias-spelling')
+        if case.get('exact_block'):
+            out.tags.append('chunk-decoding-to-exactly-2**k-characters')
         if name not in self._ops:
             self._ops[name] = (call(rs.data.encode, [('encoding', name)]), call(rs.data.decode, [('encoding', name)]))
         enc_op, dec_op = self._ops[name]
@@ -199,7 +215,7 @@ class C17(Check):
         if case['empties']:
             chunks = chunking.insert_empties_everywhere(chunks, b'')
             out.tags.append('empties')
-        bounds = char_boundaries(text, enc, blob)
+        bounds = char_boundaries(text, enc, blob) if len(blob) <= (1 << 21) else None      # (only used to classify the case)
         if bounds is not None and any(c not in bounds for c in cuts):
             out.nontrivial = True
             out.tags.append('cut-in-char')
